@@ -105,7 +105,7 @@ func (z zUnhashable) String() string { return fmt.Sprint(z.xs) }
 var zooTemplates = []string{
 	"{{ V }}", "{{ V|length }}", "{{ V|first }}", "{{ V|last }}", "{{ V|reverse }}", "{{ V|sort }}", "{{ V|keys }}", "{{ V|join(',') }}", "{{ V|slice(1) }}", "{{ V|slice(-1, 5) }}",
 	"{{ V|merge([1]) }}", "{{ V|merge({'a': 1}) }}", "{{ V|default('d') }}", "{{ V|upper }}", "{{ V|lower }}", "{{ V|trim }}", "{{ V|capitalize }}", "{{ V|title }}", "{{ V|abs }}", "{{ V|round }}",
-	"{{ V|round(2, 'ceil') }}", "{{ V|number_format(2) }}", "{{ V|escape }}", "{{ V|json_encode }}", "{{ V|date('Y-m-d') }}", "{{ V|split(',') }}", "{{ V|replace('a', 'b') }}", "{{ V|striptags }}", "{{ V|nl2br }}", "{{ V|url_encode }}",
+	"{{ V|round(2, 'ceil') }}", "{{ V|number_format(2) }}", "{{ V|escape }}", "{{ V|json_encode }}", "{{ V|date('Y-m-d') }}", "{{ V|split(',') }}", "{{ V|split('z-a') }}{{ V|split('a-') }}{{ V|split('^]') }}{{ V|split('[a') }}{{ V|split(V) }}{{ 'a-b'|split(V) }}", "{{ V|replace('a', 'b') }}", "{{ V|striptags }}", "{{ V|nl2br }}", "{{ V|url_encode }}",
 	"{{ V|format(1) }}", "{{ V|spaceless }}", "{{ V|raw }}", "{{ V|count }}",
 	"{% for x in V %}{{ x }}{{ loop.index }}{% else %}E{% endfor %}", "{% for k, x in V %}{{ k }}={{ x }}{% endfor %}",
 	"{{ V.Name }}{{ V.name }}{{ V.Hello }}{{ V.PtrM }}{{ V.WithArg }}{{ V.Inner.V }}{{ V.V }}{{ V.priv }}{{ V.nosuch.deeper }}", "{{ V[0] }}{{ V['a'] }}{{ V[n] }}{{ V[-1] }}{{ V[99] }}{{ V[V] }}",
